@@ -466,5 +466,5 @@ pub fn run(ctx: &mut Ctx) {
 	ctx.assume("inheritance graphs are acyclic (Java forbids cycles)");
 	ctx.assume("within one class a (name, descriptor) pair names one member in every namespace");
 	ctx.assume("class names are injective per namespace (otherwise the answer for a name is ambiguous by nature)");
-	ctx.run_sub("remapper", ctx.tier.pick(24000, 1000000), strategy, dispatch);
+	ctx.run_sub("remapper", ctx.tier.pick(96000, 1000000), strategy, dispatch);
 }
